@@ -94,6 +94,8 @@ func crossCheckSpec(c *engine.Ctx, results []*core.PResult) {
 			switch ans.Verdicts[k] {
 			case '?':
 				c.Count("spec-cross-check", "jsonschema raised (skipped)")
+			case 'm':
+				c.Count("spec-cross-check", "schema mixes boolean and numeric exclusive bounds (no single dialect; skipped)")
 			case want:
 				c.Count("spec-cross-check", "agree")
 			default:
